@@ -1,4 +1,5 @@
 import Sudachi.Proofs.Rewrite
+import Sudachi.Proofs.RewriteDepth
 /-!
 # C14 — Path-rewrite plugins only merge adjacent tokens and preserve the text
 
@@ -22,6 +23,16 @@ last node, in characters and bytes; dictionary-side surface = concatenation) and
 plugin's relation `R` (`RN`: numeral POS = POS of the first node, no word id; `RK`: configured OOV
 POS, normalised/dictionary form = surface; `RS`: POS among those the stack prescribes); all other
 nodes are kept identically and in place.
+
+Second round (depth): the node carries the four id lists (A units, B units, word structure, synonym
+groups), `merged_fields_*` are field-by-field, `NewWord` (no units, no structure, no synonyms, default
+connection ids) is part of `RN`/`RK`/`RS`; `split_path` after the plugins is in the model
+(`splitPath`, `analyse`; `NodeSplitIterator` is the parameter `U`) with `split_after_rewrite` and
+`split_of_merged`; the katakana joiner's decision is characterised (`katakana_join_decision`,
+`katakana_merged_block_classes`, `katakana_min_length_unchanged`); the stack runs in configured
+order (`stack_applies_in_order`, `plugin_order_matters_counterexample`); idempotence is false for the
+numeral joiner (`numeric_not_idempotent_counterexample`, finding F3) and not proved for the katakana
+joiner (oracle + correspondence + instances).
 
 Two clauses of the property are **false** for the code as it is; both are proved on concrete
 witnesses (`…_counterexample`) and reproduced on the implementation by the harness:
@@ -74,37 +85,53 @@ theorem coarsens_preserved_by_concat_oov_nodes (cfg : KCfg) (p0 path q : List No
 /-! ### merged fields (clauses "covers exactly the union of the merged ranges", "surface is the
 concatenation", "carries the prescribed part of speech", "other tokens unchanged") -/
 
-/-- `concat_nodes(path, b, e, nf)`: the node at `b` is the merged node — range from the first to the
-last node of the block, surface/reading/dictionary form concatenated, POS of the first node,
-normalised form `nf` or the concatenation, cost of the last node, no word id; nodes before `b` are
-untouched, nodes from `e` on are untouched and shifted down. -/
+/-- `concat_nodes(path, b, e, nf)`, FIELD BY FIELD: the node at `b` is the merged node —
+node side: begin (chars, bytes) of the first node, end (chars, bytes) of the last node, total cost of the
+last node, no word id, left/right id `u16::MAX`, cost `i16::MAX`;
+word-info side: surface / reading form / dictionary form = concatenation of the raw fields,
+head_word_length = sum, POS of the first node, normalised form `nf` or the concatenation,
+dictionary_form_word_id −1, NO A units, NO B units, no word structure, no synonym groups;
+nodes before `b` are untouched, nodes from `e` on are untouched and shifted down.
+(Seeded change C14b — copying the head's units — falsifies the `aSplit`/`bSplit` conjuncts.) -/
 theorem merged_fields_concat_nodes (path q : List Node) (b e : Nat) (nf : Option (List Char))
     (h : concatNodes path b e nf = .ok q) :
     ∃ f l m, b < e ∧ e ≤ path.length ∧ path[b]? = some f ∧ path[e - 1]? = some l ∧ q[b]? = some m ∧
       (m.b, m.bb, m.e, m.eb) = (f.b, f.bb, l.e, l.eb) ∧
-      m.surface = catSurface (block path b e) ∧ m.pos = f.pos ∧ m.tc = l.tc ∧ m.wid = WID_INVALID ∧
+      m.tc = l.tc ∧ m.wid = WID_INVALID ∧ (m.left, m.right, m.cost) = (65535, 65535, 32767) ∧
+      m.surface = catSurface (block path b e) ∧ m.hwl = sumHwl (block path b e) ∧ m.pos = f.pos ∧
       (∀ s, nf = some s → m.norm = s) ∧ (nf = none → m.norm = (block path b e).flatMap (·.norm)) ∧
+      m.reading = (block path b e).flatMap (·.reading) ∧ m.dform = (block path b e).flatMap (·.dform) ∧
+      m.dfw = -1 ∧ m.aSplit = [] ∧ m.bSplit = [] ∧ m.wStruct = [] ∧ m.syn = [] ∧
       (∀ k, k < b → q[k]? = path[k]?) ∧ (∀ k, q[b + 1 + k]? = path[e + k]?) ∧
       q.length + (e - b) = path.length + 1 := by
   obtain ⟨f, l, hbe, he, hf, hl, rfl⟩ := concatNodes_ok h
-  refine ⟨f, l, _, hbe, he, hf, hl, replaced_at path b e _ hbe he, rfl, rfl, rfl, rfl, rfl,
-    fun s hs => by subst hs; rfl, fun hn => by subst hn; rfl,
+  refine ⟨f, l, _, hbe, he, hf, hl, replaced_at path b e _ hbe he, rfl, rfl, rfl, rfl, rfl, rfl, rfl,
+    fun s hs => by subst hs; rfl, fun hn => by subst hn; rfl, rfl, rfl, rfl, rfl, rfl, rfl, rfl,
     replaced_untouched_before path b e _ hbe he, replaced_untouched_after path b e _ hbe he, ?_⟩
   simp only [List.length_append, List.length_take, List.length_cons, List.length_drop]
   omega
 
-/-- `concat_oov_nodes(path, b, e, pos)`: as above with the configured POS, and normalised and
-dictionary form equal to the concatenated surface. -/
+/-- `concat_oov_nodes(path, b, e, pos)`, FIELD BY FIELD: ranges, total cost, connection ids and cost as
+above; word id = OOV id if any part is OOV (the largest id), else `(dictionary of the largest id,
+MAX_WORD)`; surface = concatenation, normalised and dictionary form = that surface, reading form
+empty (reported as the surface), head_word_length = sum, the configured POS,
+dictionary_form_word_id −1, no units, no word structure, no synonym groups.
+(Seeded change C14a — end derived from the concatenated headwords — falsifies the range conjunct.) -/
 theorem merged_fields_concat_oov_nodes (path q : List Node) (b e posId : Nat)
     (h : concatOovNodes path b e posId = .ok q) :
     ∃ f l m, b < e ∧ e ≤ path.length ∧ path[b]? = some f ∧ path[e - 1]? = some l ∧ q[b]? = some m ∧
       (m.b, m.bb, m.e, m.eb) = (f.b, f.bb, l.e, l.eb) ∧
-      m.surface = catSurface (block path b e) ∧ m.pos = posId ∧ m.tc = l.tc ∧
-      m.norm = m.surface ∧ m.dform = m.surface ∧
+      m.tc = l.tc ∧ (m.left, m.right, m.cost) = (65535, 65535, 32767) ∧
+      m.wid = (if widIsOov (maxWid (block path b e)) then maxWid (block path b e)
+               else (maxWid (block path b e) / 268435456) * 268435456 + MAX_WORD) ∧
+      m.surface = catSurface (block path b e) ∧ m.hwl = sumHwl (block path b e) ∧ m.pos = posId ∧
+      m.norm = m.surface ∧ m.dform = m.surface ∧ m.reading = [] ∧
+      m.dfw = -1 ∧ m.aSplit = [] ∧ m.bSplit = [] ∧ m.wStruct = [] ∧ m.syn = [] ∧
       (∀ k, k < b → q[k]? = path[k]?) ∧ (∀ k, q[b + 1 + k]? = path[e + k]?) ∧
       q.length + (e - b) = path.length + 1 := by
   obtain ⟨f, l, hbe, he, hf, hl, rfl⟩ := concatOovNodes_ok h
-  refine ⟨f, l, _, hbe, he, hf, hl, replaced_at path b e _ hbe he, rfl, rfl, rfl, rfl, rfl, rfl,
+  refine ⟨f, l, _, hbe, he, hf, hl, replaced_at path b e _ hbe he, rfl, rfl, rfl, rfl, rfl, rfl, rfl,
+    rfl, rfl, rfl, rfl, rfl, rfl, rfl, rfl,
     replaced_untouched_before path b e _ hbe he, replaced_untouched_after path b e _ hbe he, ?_⟩
   simp only [List.length_append, List.length_take, List.length_cons, List.length_drop]
   omega
@@ -225,12 +252,111 @@ theorem numeric_invariant (cfg : NCfg) (cat : List Nat) (P : List Char → POut)
       (NInv st → nstep .fix cfg cat P st = .ok st' → NInv st' ∧ st'.path.length ≤ st.path.length) :=
   ⟨nInit_inv path, fun hinv h => ⟨(nstep_fix_progress h hinv).1, (nstep_fix_progress h hinv).2.1⟩⟩
 
+/-! ### the merged token is a new word; A/B splitting after the plugins (oracle clause `split-of-merged`) -/
+
+/-- Every token that the configured stack puts in place of a block is a NEW word (`NewWord`): no A
+units, no B units, no word structure, no synonym groups, no dictionary-form reference, connection ids
+`u16::MAX`, cost `i16::MAX` — for every stack, path, parser, class table; and the blocks are as in
+`tokens_kept_or_merged`. -/
+theorem merged_token_is_new_word (v : NVariant) (cat : List Nat) (P : List Char → POut) (pls : List Plugin)
+    (path q : List Node) (h : rewriteAll v cat P pls path = .ok q) :
+    ∃ bs : List (List Node), bs.flatten = path ∧ Aligned (fun _ m => NewWord m) bs q :=
+  ((rewriteAll_coarsens v cat P pls path q h).mono (fun _ _ hr => hr.2)).aligned
+
+/-- `split_path` keeps a merged token whole in every mode, whatever `NodeSplitIterator` would yield. -/
+theorem merged_token_kept_whole (U : Mode → Node → List Node) (md : Mode) (f l : Node) (blk : List Node)
+    (nf : Option (List Char)) (posId : Nat) :
+    splitNode U md (mergedNode f l blk nf) = [mergedNode f l blk nf] ∧
+      splitNode U md (mergedOovNode f l blk posId) = [mergedOovNode f l blk posId] := by
+  cases md <;> exact ⟨rfl, rfl⟩
+
+/-- `do_tokenize` from the best path on (plugin loop, then `split_path`), for every mode: the result is
+the rewritten path split block by block — a token the plugins KEPT (its block is the token itself) is
+split exactly as `split_path` splits it in the un-rewritten path, a token the plugins MADE stays one
+token. -/
+theorem split_after_rewrite (v : NVariant) (cat : List Nat) (P : List Char → POut)
+    (U : Mode → Node → List Node) (pls : List Plugin) (md : Mode) (path r : List Node)
+    (h : analyse v cat P U pls md path = .ok r) :
+    ∃ q bs, rewriteAll v cat P pls path = .ok q ∧ bs.flatten = path ∧
+      Aligned (RS (prescribed pls)) bs q ∧ r = splitAligned U md bs q := by
+  unfold analyse at h
+  split at h
+  · rename_i q hq
+    cases h
+    obtain ⟨bs, e, ha⟩ := (rewriteAll_coarsens v cat P pls path q hq).aligned
+    exact ⟨q, bs, hq, e, ha, splitPath_of_aligned U md (RS_newWord _) bs q ha⟩
+  all_goals cases h
+
+/-- The oracle's clause `split-of-merged` as a theorem: every token of the mode-A/B result WITH the
+plugins is a token of the mode-C result with the plugins, or a token of the mode-A/B result WITHOUT them
+(namely a unit of a word that the plugins kept): a merged token is never cut and no token is invented. -/
+theorem split_of_merged (v : NVariant) (cat : List Nat) (P : List Char → POut)
+    (U : Mode → Node → List Node) (pls : List Plugin) (md : Mode) (path r : List Node)
+    (h : analyse v cat P U pls md path = .ok r) :
+    ∃ q, analyse v cat P U pls .C path = .ok q ∧
+      ∀ t ∈ r, t ∈ q ∨ (t ∈ splitPath U md path ∧ ∃ n ∈ path, n ∈ q ∧ t ∈ splitNode U md n) := by
+  unfold analyse at h ⊢
+  split at h
+  · rename_i q hq
+    cases h
+    refine ⟨q, rfl, ?_⟩
+    exact splitPath_mem_of_coarsens U md (RS_newWord _) (rewriteAll_coarsens v cat P pls path q hq)
+  all_goals cases h
+
+/-! ### the katakana joiner: start-of-run rule, NOOOVBOW, `minLength` -/
+
+/-- The decision of `JoinKatakanaOovPlugin::rewrite_gen` at index `i`: whenever it joins `[b, e)` the
+path reads `pre ++ skipped ++ blk ++ post` with `blk = path[b..e)` and
+* `skipped ++ blk` is the MAXIMAL run of katakana nodes (by `cat_of_range`) around `i`: the last node
+  of `pre` and the first node of `post`, if any, are not katakana (start-of-run rule);
+* `skipped` = the leading nodes of the run whose first character is NOOOVBOW; the joined block begins
+  with the first node that may begin an OOV word;
+* at least two nodes are joined;
+* the node at `i` lies in the run and is OOV or shorter than `minLength` (the trigger). -/
+theorem katakana_join_decision (cfg : KCfg) (cat : List Nat) (path : List Node) (i : Nat) (node : Node)
+    (b e : Nat) (hn : path[i]? = some node) (h : kstep cfg cat path i node = .ok (.join b e)) :
+    ∃ pre skipped blk post, path = pre ++ skipped ++ blk ++ post ∧
+      b = pre.length + skipped.length ∧ e = b + blk.length ∧ 2 ≤ blk.length ∧ block path b e = blk ∧
+      (∀ n ∈ skipped, isKatakana cat n = .ok true ∧ canOovBow cat n = .ok false) ∧
+      (∀ n ∈ blk, isKatakana cat n = .ok true) ∧
+      (∀ x, blk.head? = some x → canOovBow cat x = .ok true) ∧
+      (∀ x, pre.getLast? = some x → isKatakana cat x = .ok false) ∧
+      (∀ x, post.head? = some x → isKatakana cat x = .ok false) ∧
+      pre.length ≤ i ∧ i < e ∧ (isOov node = true ∨ isShorter cfg node = .ok true) :=
+  kstep_join_spec cfg cat path i node b e hn h
+
+/-- … and through the whole loop (any fuel, any start index): in the partition of the input into blocks,
+every merged block consists of at least two nodes that are ALL katakana, and the merged token begins
+with a character that may begin an OOV word (never NOOOVBOW); it carries the configured POS, normalised
+and dictionary form = surface, and is a new word (`RKc` = `RK` + the class facts). -/
+theorem katakana_merged_block_classes (cfg : KCfg) (cat : List Nat) (fuel : Nat) (path : List Node)
+    (i : Nat) (q : List Node) (h : kloop cfg cat fuel path i = .ok q) :
+    ∃ bs : List (List Node), bs.flatten = path ∧ Aligned (RKc cfg cat) bs q :=
+  (kloop_coarsens_cat cfg cat fuel path i q h).aligned
+
+/-- `minLength`: a path without OOV nodes in which every node has at least `minLength` characters is
+returned unchanged, whatever the classes are (dictionary words are joined only when they are shorter
+than `minLength`; in particular `minLength = 0` joins OOV runs only). -/
+theorem katakana_min_length_unchanged (cfg : KCfg) (cat : List Nat) (path : List Node)
+    (h : ∀ n ∈ path, isOov n = false ∧ n.b ≤ n.e ∧ cfg.minLength ≤ n.e - n.b) :
+    joinKatakana cfg cat path = .ok path :=
+  kloop_unchanged_of_no_candidate cfg cat path h _ 0 (by simp [kFuel])
+
+/-! ### order of the plugins -/
+
+/-- The plugins run in configured order: a stack `p1 ++ p2` is `p1` followed by `p2` on its result
+(errors, panics and `HANG` of `p1` end the run). -/
+theorem stack_applies_in_order (v : NVariant) (cat : List Nat) (P : List Char → POut)
+    (p1 p2 : List Plugin) (path : List Node) :
+    rewriteAll v cat P (p1 ++ p2) path = (rewriteAll v cat P p1 path).bind (rewriteAll v cat P p2) :=
+  rewriteAll_append v cat P p1 p2 path
+
 /-! ### counterexamples: what the code as it is does *not* satisfy -/
 
 /-- lexicon row `7` (class NUMERIC) whose normalised form is `,` -/
 def n7 : Node :=
   { b := 0, e := 1, bb := 0, eb := 1, wid := 5, tc := 10, left := 0, right := 0, cost := 10,
-    pos := 1, hwl := 1, dfw := -1, nA := 0, nB := 0, nW := 0, nS := 0,
+    pos := 1, hwl := 1, dfw := -1, aSplit := [], bSplit := [], wStruct := [], syn := [],
     surface := ['7'], norm := [','], reading := [], dform := [] }
 
 /-- what the real parser reports for a string beginning with `,` (hook output `2c:0:2:0:`) -/
@@ -273,17 +399,71 @@ theorem numeric_rewrite_witness_after_fix :
     joinNumeric .fix { numPos := 1, enableNormalize := true } [NUMERIC] pComma [n7] = .ok [n7] := by
   decide
 
+/-! #### F3: the numeral joiner is not idempotent (text `1,234,5.5`, harness directed cases 17/18) -/
+
+def f3o1 : Node :=
+  { b := 0, e := 1, bb := 0, eb := 1, wid := 4026531841, tc := 3232, left := 3, right := 0, cost := 3183,
+    pos := 1, hwl := 0, dfw := 0, aSplit := [], bSplit := [], wStruct := [], syn := [],
+    surface := ['1'], norm := [], reading := [], dform := [] }
+def f3c1 : Node :=
+  { f3o1 with b := 1, e := 2, bb := 1, eb := 2, wid := 4026531843, tc := 7531, left := 2, right := 3,
+              cost := 4269, pos := 3, surface := [','] }
+def f3o234 : Node := { f3o1 with b := 2, e := 5, bb := 2, eb := 5, tc := 10730, surface := ['2', '3', '4'] }
+def f3c2 : Node := { f3c1 with b := 5, e := 6, bb := 5, eb := 6, tc := 15029 }
+def f3d5a : Node :=
+  { f3o1 with b := 6, e := 7, bb := 6, eb := 7, wid := 7, tc := 16021, left := 2, right := 3, cost := 973,
+              hwl := 1, dfw := -1, surface := ['5'] }
+def f3pd : Node := { f3c1 with b := 7, e := 8, bb := 7, eb := 8, tc := 20309, surface := ['.'] }
+def f3d5b : Node := { f3d5a with b := 8, e := 9, bb := 8, eb := 9, tc := 21301 }
+def f3path : List Node := [f3o1, f3c1, f3o234, f3c2, f3d5a, f3pd, f3d5b]
+def f3cat : List Nat := [16, 1, 16, 16, 16, 1, 16, 1, 16]
+/-- the real parser's outcomes (hook `verif_parse`) for every string the two runs ask for -/
+def f3P : List Char → POut := fun s =>
+  if s = "1".toList then { n := 1, err := 0, done := true, norm := "1".toList }
+  else if s = "1,".toList then { n := 2, err := 2, done := false, norm := "1".toList }
+  else if s = "1,234".toList then { n := 5, err := 0, done := true, norm := "1234".toList }
+  else if s = "1,234,".toList then { n := 6, err := 2, done := false, norm := "1234".toList }
+  else if s = "1,234,5".toList then { n := 7, err := 2, done := false, norm := "12345".toList }
+  else if s = "1,234,5.".toList then { n := 7, err := 2, done := false, norm := [] }
+  else if s = "234".toList then { n := 3, err := 0, done := true, norm := "234".toList }
+  else if s = "5".toList then { n := 1, err := 0, done := true, norm := "5".toList }
+  else if s = "5.".toList then { n := 2, err := 1, done := false, norm := "5".toList }
+  else if s = "5.5".toList then { n := 3, err := 0, done := true, norm := "5.5".toList }
+  else missing
+def f3m55 : Node := mergedNode f3d5a f3d5b [f3d5a, f3pd, f3d5b] (some "5.5".toList)
+def f3m1234 : Node := mergedNode f3o1 f3o234 [f3o1, f3c1, f3o234] (some "1234".toList)
+
+/-- Idempotence ("running a plugin on its own output changes nothing") is FALSE for the numeral joiner,
+both variants, both `enableNormalize` values.  The full statement that would be wanted —
+`joinNumeric v cfg cat P path = .ok q → joinNumeric v cfg cat P q = .ok q` — is refuted by the text
+`1,234,5.5` (`1|,|234|,|5|.|5`): in the first run the `.` is rejected with a COMMA error (the group `5` has
+one digit) while `comma_as_digit` is set, so the run restarts without separators and `1`, `234` stay
+apart while `5.5` is joined: `1|,|234|,|5.5` (5 tokens).  In the second run `5.5` is one non-numeric
+token (the class of `.` is not numeric), the run `1,234,` ends there with a pending COMMA error after a
+trailing `,`, the trailing-separator rule applies and `1,234` is joined: `1,234|,|5.5` (3 tokens).
+Reproduced on the implementation (oracle key `c14:not-idempotent:numeric`, known finding F3). -/
+theorem numeric_not_idempotent_counterexample (v : NVariant) (en : Bool) :
+    ∃ q q', joinNumeric v { numPos := 1, enableNormalize := en } f3cat f3P f3path = .ok q ∧
+      joinNumeric v { numPos := 1, enableNormalize := en } f3cat f3P q = .ok q' ∧
+      q.length = 5 ∧ q'.length = 3 := by
+  cases en
+  · exact ⟨[f3o1, f3c1, f3o234, f3c2, mergedNode f3d5a f3d5b [f3d5a, f3pd, f3d5b] none],
+      [mergedNode f3o1 f3o234 [f3o1, f3c1, f3o234] none, f3c2,
+        mergedNode f3d5a f3d5b [f3d5a, f3pd, f3d5b] none], by cases v <;> decide, by cases v <;> decide, rfl, rfl⟩
+  · exact ⟨[f3o1, f3c1, f3o234, f3c2, f3m55], [f3m1234, f3c2, f3m55],
+      by cases v <;> decide, by cases v <;> decide, rfl, rfl⟩
+
 /-- token `一` (class KANJI|KANJINUMERIC, numeral POS 1, word id 16, normalised form = surface) -/
 def nIchi : Node :=
   { b := 0, e := 1, bb := 0, eb := 3, wid := 16, tc := 1652, left := 1, right := 0, cost := 1384,
-    pos := 1, hwl := 3, dfw := -1, nA := 0, nB := 0, nW := 0, nS := 2,
+    pos := 1, hwl := 3, dfw := -1, aSplit := [], bSplit := [], wStruct := [], syn := [7, 9],
     surface := ['一'], norm := [], reading := ['イ', 'チ'], dform := [] }
 
 /-- the real parser on `一`: accepted, `done()`, rendering `1` -/
 def pIchi : List Char → POut := fun _ => { n := 1, err := 0, done := true, norm := ['1'] }
 
 def mIchi : Node :=
-  { nIchi with wid := WID_INVALID, left := 65535, right := 65535, cost := 32767, nS := 0,
+  { nIchi with wid := WID_INVALID, left := 65535, right := 65535, cost := 32767, syn := [],
                surface := ['一'], norm := ['1'], reading := ['イ', 'チ'], dform := [] }
 
 /-- Clause "tokens that are not part of a merge are reported unchanged" is FALSE with
@@ -313,7 +493,7 @@ theorem single_token_unchanged_without_normalize (v : NVariant) (numPos : Nat) (
     rw [h'.nil_iff.mp rfl]
   | merge blk m hs hr h' =>
     exfalso
-    have h2 := hr.2.2.2 rfl
+    have h2 := hr.2.2.2.1 rfl
     have := congrArg List.length hp
     simp only [List.length_append, List.length_cons, List.length_nil] at this
     omega
@@ -322,7 +502,7 @@ theorem single_token_unchanged_without_normalize (v : NVariant) (numPos : Nat) (
 
 def dA : Node :=
   { b := 0, e := 1, bb := 0, eb := 1, wid := 3, tc := 5, left := 1, right := 1, cost := 5, pos := 1,
-    hwl := 1, dfw := -1, nA := 0, nB := 0, nW := 0, nS := 0, surface := ['1'], norm := [],
+    hwl := 1, dfw := -1, aSplit := [], bSplit := [], wStruct := [], syn := [], surface := ['1'], norm := [],
     reading := [], dform := [] }
 def dB : Node := { dA with b := 1, e := 2, bb := 1, eb := 2, wid := 4, tc := 9, surface := ['2'] }
 def dX : Node := { dA with b := 2, e := 3, bb := 2, eb := 5, wid := 9, tc := 20, pos := 0, surface := ['あ'] }
@@ -377,7 +557,7 @@ example : Contig [dA, dB, dX] ∧ Contig [m12, dX] := ⟨⟨rfl, rfl, rfl, rfl, 
 
 def kA : Node :=
   { b := 0, e := 1, bb := 0, eb := 3, wid := 4026531840, tc := 7, left := 1, right := 1, cost := 7,
-    pos := 0, hwl := 0, dfw := 0, nA := 0, nB := 0, nW := 0, nS := 0, surface := ['ア'], norm := [],
+    pos := 0, hwl := 0, dfw := 0, aSplit := [], bSplit := [], wStruct := [], syn := [], surface := ['ア'], norm := [],
     reading := [], dform := [] }
 def kI : Node := { kA with b := 1, e := 2, bb := 3, eb := 6, tc := 14, surface := ['イ'] }
 def kA2 : Node := { kA with b := 2, e := 3, bb := 2, eb := 5 }
@@ -396,5 +576,80 @@ example (v : NVariant) : rewriteAll v [16, 16, 128, 128] pAll
       [dA, dB, kA2, kI2] =
     .ok [mergedNode dA dB [dA, dB] (some ['1', '2']), mergedOovNode kA2 kI2 [kA2, kI2] 5] := by
   cases v <;> decide
+
+/-! ### second round: order of the plugins, idempotence instances, split stage, katakana decisions -/
+
+/-- The order of the two plugins matters in general (so `stack_applies_in_order` is not vacuous): with a
+character that is NUMERIC and KATAKANA at once (`0x0032 KATAKANA` in char.def, class mask 144) the path
+`1|2|ア` becomes `1|2ア` under katakana-then-numeral and `12|ア` under numeral-then-katakana. -/
+theorem plugin_order_matters_counterexample (v : NVariant) :
+    rewriteAll v [16, 144, 128] pAll
+        [.katakana { oovPos := 5, minLength := 0 }, .numeric { numPos := 1, enableNormalize := false }]
+        [dA, dB, kA2] = .ok [dA, mergedOovNode dB kA2 [dB, kA2] 5] ∧
+    rewriteAll v [16, 144, 128] pAll
+        [.numeric { numPos := 1, enableNormalize := false }, .katakana { oovPos := 5, minLength := 0 }]
+        [dA, dB, kA2] = .ok [m12, kA2] := by
+  cases v <;> decide
+
+/-- Idempotence of the katakana joiner is NOT proved (full statement:
+`joinKatakana cfg cat path = .ok q → joinKatakana cfg cat q = .ok q`); it is checked by the oracle
+(`c14:not-idempotent:katakana`, stacks `KK` with equal settings) and by correspondence.  Instances:
+a run with a leading NOOOVBOW node (`ー|ア|イ` → `ー|アイ`, second run unchanged) and the plain run. -/
+def kBar : Node := { kA with surface := ['ー'] }
+def kA1 : Node := { kA with b := 1, e := 2, bb := 3, eb := 6 }
+def kI1 : Node := { kI with b := 2, e := 3, bb := 6, eb := 9 }
+example : joinKatakana { oovPos := 5, minLength := 0 } [1073741952, 128, 128] [kBar, kA1, kI1] =
+      .ok [kBar, mergedOovNode kA1 kI1 [kA1, kI1] 5] ∧
+    joinKatakana { oovPos := 5, minLength := 0 } [1073741952, 128, 128] [kBar, mergedOovNode kA1 kI1 [kA1, kI1] 5] =
+      .ok [kBar, mergedOovNode kA1 kI1 [kA1, kI1] 5] ∧
+    joinKatakana { oovPos := 5, minLength := 0 } [128, 128] [mAI] = .ok [mAI] := by decide
+
+/-- the hypotheses of `katakana_join_decision` are satisfiable, with a skipped NOOOVBOW node: at index 0
+of `ー|ア|イ` the joiner decides to join `[1, 3)` -/
+example : [kBar, kA1, kI1][0]? = some kBar ∧
+    kstep { oovPos := 5, minLength := 0 } [1073741952, 128, 128] [kBar, kA1, kI1] 0 kBar = .ok (.join 1 3) := by
+  decide
+
+/-- the hypothesis of `katakana_min_length_unchanged` is satisfiable: two dictionary words `アイ`, `ウ`
+(not OOV) with `minLength = 1` — and it is sharp: with `minLength = 2` the one-character word triggers
+the join of the whole run -/
+def wAI : Node := { kA with e := 2, eb := 6, wid := 21, surface := ['ア', 'イ'] }
+def wU : Node := { kA with b := 2, e := 3, bb := 6, eb := 9, wid := 22, surface := ['ウ'] }
+example : (∀ n ∈ [wAI, wU], isOov n = false ∧ n.b ≤ n.e ∧ 1 ≤ n.e - n.b) ∧
+    joinKatakana { oovPos := 5, minLength := 1 } [128, 128, 128] [wAI, wU] = .ok [wAI, wU] ∧
+    joinKatakana { oovPos := 5, minLength := 2 } [128, 128, 128] [wAI, wU] =
+      .ok [mergedOovNode wAI wU [wAI, wU] 5] := by decide
+
+/-- the split stage: `二十|ア|イ` where `二十` has the A units `[1, 2]`; the un-rewritten path splits it in
+mode A (into whatever `NodeSplitIterator` yields, here `uNi`, `uJu`), the katakana join `アイ` stays whole;
+and a joined numeral `二十|三` → `二十三` is one token in mode A although its head `二十` has units
+(what seeded change C14b breaks).  Hypotheses of `split_after_rewrite` / `split_of_merged`. -/
+def nNiju : Node := { dA with e := 2, eb := 6, wid := 30, hwl := 6, aSplit := [1, 2], surface := ['二', '十'] }
+def uNi : Node := { dA with eb := 3, wid := 1, tc := 2147483647, left := 65535, right := 65535, cost := 32767, surface := ['二'] }
+def uJu : Node := { uNi with b := 1, e := 2, bb := 3, eb := 6, wid := 2, surface := ['十'] }
+def nSan : Node := { dA with b := 2, e := 3, bb := 6, eb := 9, wid := 31, surface := ['三'] }
+def kA3 : Node := { kA with b := 2, e := 3, bb := 6, eb := 9 }
+def kI3 : Node := { kI with b := 3, e := 4, bb := 9, eb := 12 }
+def uTab : Mode → Node → List Node := fun _ n => if n = nNiju then [uNi, uJu] else []
+example (v : NVariant) :
+    analyse v [256, 256, 128, 128] pAll uTab [.katakana { oovPos := 5, minLength := 0 }] .A [nNiju, kA3, kI3] =
+      .ok [uNi, uJu, mergedOovNode kA3 kI3 [kA3, kI3] 5] ∧
+    analyse v [256, 256, 256] pAll uTab [.numeric { numPos := 1, enableNormalize := false }] .A [nNiju, nSan] =
+      .ok [mergedNode nNiju nSan [nNiju, nSan] none] ∧
+    analyse v [256, 256, 256] pAll uTab [] .A [nNiju, nSan] = .ok [uNi, uJu, nSan] := by
+  cases v <;> decide
+
+/-- Observation about `concat_nodes` (no clause of C14 is violated; reproduced on the implementation,
+distribution key `observation:merged-form-drops-part`): normalised, reading and dictionary form of the
+joined token are concatenations of the RAW `WordInfoData` fields, in which "same as the surface" is
+stored as the empty string.  With `enableNormalize = false`, `一` (lexicon normalised form `1`) followed
+by a `二` whose normalised form is its surface is joined into a token whose `normalized_form()` is `1`,
+not `1二`: the part that is "same as the surface" is dropped. -/
+def oIchi : Node := { nIchi with norm := ['1'], syn := [] }
+def oNi : Node := { nIchi with b := 1, e := 2, bb := 3, eb := 6, wid := 17, tc := 3000, surface := ['二'], reading := [], syn := [] }
+example (v : NVariant) :
+    ∃ m, joinNumeric v { numPos := 1, enableNormalize := false } [260, 260] pAll [oIchi, oNi] = .ok [m] ∧
+      normForm m = ['1'] ∧ normForm oIchi ++ normForm oNi = ['1', '二'] ∧ m.surface = ['一', '二'] :=
+  ⟨mergedNode oIchi oNi [oIchi, oNi] none, by cases v <;> decide, by decide, by decide, by decide⟩
 
 end C14
